@@ -36,7 +36,8 @@ def run(ctx):
     # instances created by DIFFERENT threads, each used alone (identical call sequences) or first used by several threads at once
     import conc
     conc.burst(ctx, 6, 1, 12 if ctx.quick() else 120, what=' (identical call sequences on every instance)')
-    conc.burst(ctx, 4 if ctx.quick() else 12, 4, 6 if ctx.quick() else 30)
+    for ni, nt in ((24, 8), (48, 4)):
+        conc.burst(ctx, ni if ctx.quick() else 4 * ni, nt, 2 if ctx.quick() else 6)
     # refused calls (unknown attribute / dimension) between successful ones, alone and under contention
     conc.burst(ctx, 1, 1, 150 if ctx.quick() else 3000, kind=7, what=' (refused calls interleaved with encapsulations and headers, one thread)')
     conc.burst(ctx, 1, 8, 60 if ctx.quick() else 1500, kind=7, what=' (refused calls interleaved, 8 threads)')
